@@ -153,6 +153,25 @@ Theorem C16_entry_point_contract : forall s body aops status,
              status_msg_ok (status, msg_present s') = true.
 Proof. exact (api_contract F vsnprintf failure junk lbuf_extra lbuf_has_room_for_delim failure_is_plain). Qed.
 
+(** the same contract for libaddrxlat's own entry points (addrxlat_launch,
+    _step, _walk, _sys_os_init, _op and, through it, _fulladdr_conv), judged
+    after every call of the pure-libaddrxlat histories of the check *)
+Theorem C16_addrxlat_entry_point_contract : forall s body aops status,
+  wf s -> Forall2 matches body aops -> Forall is_add_nonempty aops ->
+  addrxlat_doc status = true -> (status = ADDRXLAT_OK <-> body = []) ->
+  exists s', api_call F vsnprintf failure junk lbuf_extra s body = Ok s' /\
+             ax_status_msg_ok (status, msg_present s') = true.
+Proof. exact (api_contract_ax F vsnprintf failure junk lbuf_extra lbuf_has_room_for_delim failure_is_plain). Qed.
+
+(** an entry point that clears first forgets the old string entirely: what it
+    leaves does not depend on the state before the call (nothing stale, and
+    nothing new chained onto something old) *)
+Theorem C16_cleared_entry_forgets_history : forall s1 s2 body aops,
+  wf s1 -> wf s2 -> length (e_buf s1) = length (e_buf s2) -> Forall2 matches body aops ->
+  exists s1' s2', api_call F vsnprintf failure junk lbuf_extra s1 body = Ok s1' /\
+                  api_call F vsnprintf failure junk lbuf_extra s2 body = Ok s2' /\ cur s1' = cur s2'.
+Proof. exact (api_call_forgets F vsnprintf failure junk lbuf_extra lbuf_has_room_for_delim failure_is_plain). Qed.
+
 End C16.
 
 Print Assumptions C16_nul_terminated_in_bounds.
@@ -169,6 +188,8 @@ Print Assumptions C16_nonempty_on_failure_partial.
 Print Assumptions C16_success_leaves_no_error.
 Print Assumptions C16_failure_leaves_message.
 Print Assumptions C16_entry_point_contract.
+Print Assumptions C16_addrxlat_entry_point_contract.
+Print Assumptions C16_cleared_entry_forgets_history.
 
 (** defect 13 of the pinned tree (lbuf has no room for the delimiter,
     [lbuf_extra = 0]): the faithful model reads [lbuf[bufsz]] *)
@@ -181,6 +202,15 @@ Proof.
   vm_compute. reflexivity.
 Qed.
 Print Assumptions C16_pinned_lbuf_overread_refuted.
+
+(** every public libaddrxlat entry point that returns a status on a context
+    starts from a cleared error string (directly or through addrxlat_op),
+    except addrxlat_ctx_err, which is the public set_error; the table
+    [ax_clears] is compared with a scan of the sources on every check *)
+Theorem C16_addrxlat_entries_clear_first :
+  Forall (fun e => e = AxCtxErr \/ ax_starts_clear 2 e = true) ax_entries.
+Proof. exact ax_entries_start_clear. Qed.
+Print Assumptions C16_addrxlat_entries_clear_first.
 
 (** ** Statuses *)
 Local Open Scope Z_scope.
